@@ -10,7 +10,7 @@ use vcore::{Check, Labels, Plan, Stats, Step, Tape, Tier, Verdict};
 pub struct C10;
 pub const CHECK: C10 = C10;
 pub fn plan(t: Tier) -> Plan {
-    Plan::new(t.pick(5_000, 120_000), t.pick(2600, 4000))
+    Plan::new(t.pick(20_000, 400_000), t.pick(2600, 4000))
 }
 
 pub fn reentrant_cfg(thorough: bool) -> GenCfg {
